@@ -17,7 +17,9 @@ CasesReplayQ == {PCase(d, f, e) : d \in {A2, A3, A7, A9, A12, B4, B8, B9}, f \in
                 \cup {PCase(A17, f, e) : f \in {F1, F12}, e \in {"gzip", "deflate", "br"}}
                 \cup {PCase(d, f, e) : d \in {A2, A3}, f \in {F36, F37}, e \in {"gzip", "deflate", "br"}}
                 \cup {PCase(d, f, e) : d \in {A2, B9}, f \in {F1, F12}, e \in {"deflate, gzip", "gzip, br", "gzip,gzip"}}
-CasesReplayT == {PCase(d, f, e) : d \in DocsWell \cup DocsMessy, f \in FiltersAll, e \in {"gzip", "deflate", "br", "zstd", "identity"}}
+\* (the 70 kB noise document only with a few lists: every run on it compresses and filters 70 kB several hundred times)
+CasesReplayT == {PCase(d, f, e) : d \in (DocsWell \cup DocsMessy) \ {A17}, f \in FiltersAll, e \in {"gzip", "deflate", "br", "zstd", "identity"}}
+                \cup {PCase(A17, f, e) : f \in {F1, F6, F12, F36}, e \in {"gzip", "deflate", "br"}}
                 \cup {PCase(d, f, e) : d \in {A2, A7, B9}, f \in {F1, F6, F12}, e \in {"GZIP", "Br"}}
                 \cup {PCase(d, F29, e) : d \in {A2, A7, B9}, e \in {"gzip", "br", "deflate", "none", "zstd"}}
                 \cup {PCase(d, f, e) : d \in {A2, A7, B9}, f \in {F1, F6, F12, F36}, e \in {"deflate, gzip", "gzip, br", "gzip,gzip", "identity, gzip"}}
